@@ -120,8 +120,8 @@ PROPS = {
         "engines": ["K"],
         "bounds": ["CompactMonth: every operation for all 2^31 day sets and all days (iteration: sets of <= 4 days)", "CompactYear: every operation for all 12 x 31-bit day sets and all (month, day); serialize -> deserialize identity and exact byte consumption",
                    "CompactCalendar, by induction over insertion histories: every reachable state of 1, 2 or 3 stored years (any first year -261600..=261999, every set of existing dates per stored year, first and last year non-empty, ring buffer wrapping at any position): contains and count at any date of chrono's range; first_after against its set-theoretic specification (quick: 3 stored years for queries from the first stored year on, 2 stored years for queries before the window; thorough: 1, 2, 3 stored years for both); one insert of any date up to 3 years before / after the window gives exactly the predicted state and re-establishes the invariant (window = [min year, max year]); derived equality = set equality (windows of 1-2 years, first years <= 2 apart)",
-                   "thorough only: insert into the empty calendar (base case), ordered iteration (calendars of <= 3 members), calendar serialize -> deserialize identity and byte consumption (2 stored years)"],
-        "outside_bounds": ["calendars whose window holds more than 3 stored years before the operation (6 after an insert), inserts more than 3 years outside the window", "std's VecDeque itself (replaced by a bounded model of its documented contract for the calendar layer; changes that depend on the physical layout beyond as_slices are not visible)", "Hash / Ord / Debug of calendars"],
+                   "thorough only: insert into the empty calendar (base case), first_after on 1 and 2 stored years, contains / count / insert on 2 stored years"],
+        "outside_bounds": ["calendars whose window holds more than 3 stored years before the operation (6 after an insert), inserts more than 3 years outside the window", "std's VecDeque itself (replaced by a bounded model of its documented contract for the calendar layer; changes that depend on the physical layout beyond as_slices are not visible)", "Hash / Ord / Debug of calendars", "ordered iteration of a whole calendar, calendar-level serialize / deserialize framing, first_after from before the window on 3 stored years: harnesses written (disabled_c15_t_cal_*) but not shown to finish within the time limit, not registered (the month / year layers' iteration and framing are decided completely)"],
         "stubs": ["calendar layer only: compact-calendar/src/lib.rs (copied verbatim from /repo at check time) is compiled with `std::collections::VecDeque` replaced by kani/src/model_deque.rs (array-backed, capacity 6, references at concrete offsets, as_slices split chosen by the harness); counterexamples are replayed on the real std VecDeque"],
         "assumptions": ["the bounded deque model implements std's documented VecDeque contract for the methods compact-calendar uses (get, get_mut, push_front, push_back, front_mut, back_mut, len, is_empty, iter, FromIterator, Eq/Ord/Hash, as_slices)"],
         "explanation": "Bit-set model comparison over the complete input space of the month / year layers; set-of-dates model for the calendar layer by one inductive step from every reachable state of <= 3 stored years.",
